@@ -355,8 +355,9 @@ def _check_result(mon, op, targets, skeleton, res_root, d, entry="fiber"):
     if not mon.check(isinstance(res_root, Fiber), f"{name}:result-not-a-fiber", f"{name}: result root is {type(res_root).__name__}"):
         return seen, False
     got_skel = _upper_skeleton(res_root, depth)
-    mon.check(got_skel == skeleton, f"{name}:levels-above-changed",
-              f"{name} depth={depth}: coordinates above the split rank changed: {got_skel} != {skeleton}")
+    if not mon.check(got_skel == skeleton, f"{name}:levels-above-changed",
+                     f"{name} depth={depth}: coordinates above the split rank changed: {got_skel} != {skeleton}"):
+        return seen, False      # the split happened somewhere else: target paths mean nothing
     nodes = dict(_fibers_at(res_root, depth))
     big = False
     for tgt in targets:
@@ -383,6 +384,10 @@ def _check_result(mon, op, targets, skeleton, res_root, d, entry="fiber"):
             else:
                 mon.check(not got, f"{name}:upper-coords", f"{what}: upper coordinates {got}, no partition has members")
             mon.check(content(node, d) == {}, f"{name}:empty-target-gained-content", f"{what}: result holds {spec_of(node)}")
+            continue
+        if depth > 0 and spec_of(node) == tgt["spec"]:
+            mon.violation("deep-split:fiber-left-unsplit",
+                          f"{what}: the fiber at {tgt['path']} came through unsplit although it holds non-empty elements")
             continue
         kind, arg = _effective(op, tgt)
         if kind == "splitUniform" and arg < 1 or kind == "splitEqual" and arg < 1:
